@@ -273,7 +273,7 @@ def run(ctx):
     # long histories on one worker
     cyc = []
     for k in range(2 if not ctx.thorough else 8):
-        case, L = gen_cycles(ctx, 300 if not ctx.thorough else 2000)
+        case, L = gen_cycles(ctx, 300 if not ctx.thorough else 1200)
         cyc.append(case)
     cres = dc.run_cases(ctx, exe, drv, cyc, subdir="cycles", timeout=300)
     mem_bad, mem_stats = [], []
